@@ -282,3 +282,22 @@ SPECS["C07"] = {
     "assumptions": ["token texts separated by one blank", "ASCII bytes in the lexer harness"],
     "outside": ["sequences longer than K", "trees reachable only with more tokens", "non-ASCII input bytes"],
 }
+
+_C13 = ["interpreter/common.go", "interpreter/c13.go"]
+SPECS["C13"] = {
+    "explanation": "Two real ParseWithRuntime calls run as goroutines (four goroutines with both lexers); pass 1 is a lockset (Eraser) discovery over all its "
+                   "schedules that (a) reports unsynchronised concurrent access to package-level state of parser/interpreter - each report is confirmed by running the "
+                   "same harness under Go's race detector - and (b) yields the racy sites; pass 2 pre-empts at those sites (scheduling decisions symbolic, budget P) and "
+                   "asserts that each parse returns exactly what it returns alone.",
+    "level_text": "bounded: 6x6 program pairs, runtime provider attached or not, all schedules with <= P pre-emptions at discovered racy sites; round-robin at blocking switches",
+    "level_note": "trusts go/ssa, gosym scheduler + lockset pass (candidates only; verdicts are assertion failures or race-detector confirmations), z3",
+    "harnesses": [
+        {"name": "H1-two-parses-rt%d" % rt, "pkg": "interpreter", "files": _C13, "fn": "VerifC13Reentrant",
+         "what": "two concurrent parses of programs chosen from 6, provider %s" % ("attached" if rt else "nil"), "reach": ["both-done"],
+         "quick": {"params": {"RT": rt, "P": 1}, "two_pass": True, "unwind": 60, "wall_s": 900},
+         "thorough": {"params": {"RT": rt, "P": 2}, "two_pass": True, "unwind": 60, "wall_s": 3000}}
+        for rt in (0, 1)
+    ],
+    "assumptions": ["program set of six", "pre-emptions only at sites the lockset pass reports", "sequential consistency"],
+    "outside": ["3+ concurrent parses", "arbitrary programs", "imports from sinks"],
+}
